@@ -9,6 +9,9 @@ def parseQuery (s : String) : Option Query :=
   | ["fin", k] => (natOfChars k.toList).map fun k => Query.ofList ((List.range k).map fun i => .answer (i + 1))
   | ["err", j] => (natOfChars j.toList).map fun j =>
       Query.ofList ((List.range j).map (fun i => Event.answer (i + 1)) ++ [.error 0])
+  | ["mix", k] => (natOfChars k.toList).map fun k =>
+      -- answers 1, unbound (0), 3, unbound, …
+      Query.ofList ((List.range k).map fun i => .answer (if i % 2 = 0 then i + 1 else 0))
   | ["inf"] => some fun i => .answer (i + 1)
   -- a query made only of cuts: ONE answer that binds nothing and calls no predicate (the engine hands
   -- the untouched nil environment to the continuation); answer number 0 = "X unbound"
